@@ -126,7 +126,7 @@ def gBusy (p : Lst) : Bool := hlsc_g7 p.ls p.buf p.resultlen p.result 0 [] 0 0
 def gNoLen (p : Lst) : Bool := hlsc_g8 p.ls p.buf p.resultlen p.result 0 [] 0 0
 def gNoNL (p : Lst) (pos : Int) : Bool := hlsc_g9 p.ls p.buf p.resultlen p.result pos [] 0 0
 def gMore5 (p : Lst) : Bool := hlsc_g5 p.ls p.buf p.resultlen p.result 0 [] 0 0
-def gMore14 (p : Lst) : Bool := hlsc_g14 p.ls p.buf p.resultlen p.result 0 [] 0 0
+def gMore15 (p : Lst) : Bool := hlsc_g15 p.ls p.buf p.resultlen p.result 0 [] 0 0
 
 /-- the `try:` block of the header branch: `some n` = `self.resultlen = n`, `none` = ValueError -/
 def headerLen (p : Lst) (line : Bytes) : Option Int :=
@@ -155,21 +155,29 @@ def handled (h : Bytes → HRes) (p : Lst) : StepR :=
 /-- the `else:` branch of BUSY (`self.resultlen` is the integer `rln`) -/
 def bodyStep (h : Bytes → HRes) (p : Lst) (rln : Int) : StepR :=
   let needed := hbody_a22 p.buf rln p.result 0
-  if hlsc_g12 p.ls p.buf p.resultlen p.result 0 [] 0 needed then
+  if hlsc_g13 p.ls p.buf p.resultlen p.result 0 [] 0 needed then
     if needed < 0 then { p := p, err := some .negSlice }
     else
       let p1 : Lst := { p with result := hlsc_a23 p.ls p.buf p.resultlen p.result 0 [] 0 needed,
                                buf := hlsc_a24 p.ls p.buf p.resultlen p.result 0 [] 0 needed }
       let needed' := hbody_a25 p1.buf rln p1.result needed
-      if hlsc_g13 p1.ls p1.buf p1.resultlen p1.result 0 [] 0 needed' then
+      if hlsc_g14 p1.ls p1.buf p1.resultlen p1.result 0 [] 0 needed' then
         let r := handled h p1
-        { r with again := gMore14 r.p }
-      else { p := p1, again := gMore14 p1 }
+        { r with again := gMore15 r.p }
+      else { p := p1, again := gMore15 p1 }
   else
-    if hlsc_g13 p.ls p.buf p.resultlen p.result 0 [] 0 needed then
+    if hlsc_g14 p.ls p.buf p.resultlen p.result 0 [] 0 needed then
       let r := handled h p
-      { r with again := gMore14 r.p }
-    else { p := p, again := gMore14 p }
+      { r with again := gMore15 r.p }
+    else { p := p, again := gMore15 p }
+
+/-- `if self.resultlen is not None:` … and the final `if self.state_buffer:` of the BUSY branch -/
+def busyTail (h : Bytes → HRes) (q : Lst) : StepR :=
+  if hlsc_g12 q.ls q.buf q.resultlen q.result 0 [] 0 0 then
+    match q.resultlen with
+    | some rln => bodyStep h q rln
+    | none => { p := q, again := gMore15 q }
+  else { p := q, again := gMore15 q }
 
 /-- one execution of the body of `handle_listener_state_change`; `again` = it calls itself -/
 def stepP (h : Bytes → HRes) (p : Lst) : StepR :=
@@ -195,16 +203,11 @@ def stepP (h : Bytes → HRes) (p : Lst) : StepR :=
         let line := hlsc_a13 p.ls p.buf p.resultlen p.result pos [] 0 0
         let p1 : Lst := { p with buf := hlsc_a14 p.ls p.buf p.resultlen p.result pos [] 0 0 }
         match headerLen p line with
-        | some n =>
-          let p2 : Lst := { p1 with resultlen := some n }
-          { p := p2, again := gMore14 p2 }
+        | some n => busyTail h { p1 with resultlen := some n }
         | none =>
           { p := { p1 with ls := .UNKNOWN, buf := hlsc_a20 p.ls p.buf p.resultlen p.result pos [] 0 0, event := none },
             outs := [.lstate p.ls .UNKNOWN, .rejected p.event] }
-    else
-      match p.resultlen with
-      | some rln => bodyStep h p rln
-      | none => { p := p }     -- unreachable: gNoLen is false
+    else busyTail h p
   else { p := p }
 
 /-- termination measure of the recursion -/
@@ -376,29 +379,58 @@ def parsePState (t : String) : Option PState :=
 def parseCap (t : String) : Option (Option Nat) :=
   if t == "inf" then some none else t.toNat?.map some
 
-def runOp (h : Bytes → HRes) (s : S) (l : String) : Option (S × String) :=
+/-- the operations of one listener's history -/
+inductive Op
+  | read (d : Bytes)                  -- its stdout becomes readable (`[]` = EOF)
+  | send (ev : Nat) (envelope : Bytes) -- the pool tries to hand it an event
+  | wev                               -- its stdin becomes writable
+  | pstate (ps : PState)
+  | cap (c : Option Nat)              -- the kernel pipe's free space changes
+  | breakpipe                         -- the listener closes its stdin
+  | die (d : Bytes)
+  | spawn (pid : Int)
+
+def applyOp (h : Bytes → HRes) (s : S) : Op → S
+  | .read d => readEvent h d s
+  | .send ev env => (trySend ev env s).1
+  | .wev => writeEvent s
+  | .pstate ps => setPState ps s
+  | .cap c => setP (fun p => { p with pipeCap := c }) s
+  | .breakpipe => setP (fun p => { p with pipeBroken := true }) s
+  | .die d => die h d s
+  | .spawn pid => spawn pid s
+
+/-- one operation; an exception that escaped the previous operation was observed and is gone -/
+def step (h : Bytes → HRes) (s : S) (op : Op) : S := applyOp h { s with err := none } op
+
+def exec (h : Bytes → HRes) (s : S) (ops : List Op) : S := ops.foldl (step h) s
+
+def parseOp (l : String) : Option Op :=
   match words l with
-  | ["read", hx] => (bytesOfHex hx).map fun d => (readEvent h d s, "")
+  | ["read", hx] => (bytesOfHex hx).map .read
   | ["send", ev, hx] =>
     match ev.toNat?, bytesOfHex hx with
-    | some e, some b =>
-      let r := trySend e b s
-      some (r.1, match r.2 with | .sent => " sent" | _ => " notsent")
+    | some e, some b => some (.send e b)
     | _, _ => none
-  | ["wev"] => some (writeEvent s, "")
-  | ["pstate", t] => (parsePState t).map fun ps => (setPState ps s, "")
-  | ["cap", t] => (parseCap t).map fun c => (setP (fun p => { p with pipeCap := c }) s, "")
-  | ["breakpipe"] => some (setP (fun p => { p with pipeBroken := true }) s, "")
-  | ["die", hx] => (bytesOfHex hx).map fun d => (die h d s, "")
-  | ["spawn", pid] => pid.toInt?.map fun n => (spawn n s, "")
+  | ["wev"] => some .wev
+  | ["pstate", t] => (parsePState t).map .pstate
+  | ["cap", t] => (parseCap t).map .cap
+  | ["breakpipe"] => some .breakpipe
+  | ["die", hx] => (bytesOfHex hx).map .die
+  | ["spawn", pid] => pid.toInt?.map .spawn
   | _ => none
 
 def runOps (h : Bytes → HRes) : S → List String → List String
   | _, [] => []
   | s, l :: ls =>
-    match runOp h s l with
+    match parseOp l with
     | none => "bad-op" :: runOps h s ls
-    | some (s', extra) => (showState s' s.outs.length ++ extra) :: runOps h { s' with err := none } ls
+    | some op =>
+      let s' := step h s op
+      let extra := match op with
+        | .send ev env => (match (trySend ev env { s with err := none }).2 with | .sent => " sent" | _ => " notsent")
+        | _ => ""
+      (showState s' s.outs.length ++ extra) :: runOps h s' ls
 
 def initial : Lst := { outClosed := true, inClosed := true }
 
